@@ -37,9 +37,9 @@ Variable nonce : bytes.
 Variable iv : bytes.
 
 Hypothesis mac_len : forall x, length (mac P x) = maclen P.
-Hypothesis dec_enc : forall h p, c_dec P h (c_enc P h p) = p.
+Hypothesis dec_enc : forall h p, isbytes p -> c_dec P h (c_enc P h p) = p.
 Hypothesis enc_len : forall h p, length (c_enc P h p) = length p.
-Hypothesis enc_byte : forall h p, Forall (fun b => (b < 256)%N) (c_enc P h p).
+Hypothesis enc_byte : forall h p, isbytes p -> isbytes (c_enc P h p).
 Hypothesis same_nonce : ctr_mode c = true -> nonce = iv.
 Hypothesis authenticated : auth c = true.
 
